@@ -54,7 +54,9 @@ def cached_template(
     template_cls = template_cls or Template
     template_cls_path = get_import_path(template_cls)
     engine_cls_path = get_import_path(engine.__class__) if engine else None
-    cache_key = (template_cls_path, template_string, engine_cls_path)
+    # NOTE: The name and origin decide how relative paths in `{% extends %}` and `{% include %}` are resolved
+    origin_key = (origin.name, origin.template_name) if origin else None
+    cache_key = (template_cls_path, template_string, engine_cls_path, name, origin_key)
 
     maybe_cached_template: Optional[Template] = template_cache.get(cache_key)
     if maybe_cached_template is None:
